@@ -131,8 +131,49 @@ def stepOp (b : Bound) (relay : List Ans) (cspec : List (Char × Ans)) (maps : M
     | _, _ => "bad-op"
   | _ => "bad-op"
 
+def parseBReq (tag : Nat) (s : String) : Option BReq :=
+  match s.splitOn "," with
+  | [f, a, p, sc, fl, r, b] => do
+    let fam ← (match f with | "4" => some C20.Family.v4 | "6" => some C20.Family.v6 | _ => none)
+    let addr ← hexNat? a
+    let p ← p.toNat?
+    let sc ← sc.toNat?
+    let fl ← (match fl with | "u" => some none | "t" => some (some true) | "f" => some (some false) | _ => none)
+    let r ← bool01? r
+    let b ← bool01? b
+    pure ⟨⟨fam, p, fl, r⟩, addr, sc, b, tag⟩
+  | _ => none
+
+def parseBReqs (s : String) : Option (List BReq) :=
+  if s == "-" then some [] else
+  let rec go (i : Nat) : List String → Option (List BReq)
+    | [] => some []
+    | x :: xs => do
+      let c ← parseBReq i x
+      let cs ← go (i + 1) xs
+      pure (c :: cs)
+  go 0 (s.splitOn ";")
+
+def showBound (b : Bound) (ops : String) : String :=
+  let lay := s!"{showFam "L4" b.v4},{showFam "L6" b.v6}"
+  let maps : Maps := ⟨C18.AddrMap.empty, C18.AddrMap.empty, C18.AddrMap.empty⟩
+  ";".intercalate (lay :: (ops.splitOn ";").map (stepOp b [] [] maps))
+
+def handleBuilder (reqs ok ops : String) : String :=
+  match parseBReqs reqs, ok.toList with
+  | some rs, [o4, o6] =>
+    match builderBind (o4 == '1') (o6 == '1') rs with
+    | .error (.dup, i) => s!"reject:dup@{i}"
+    | .error (.badPrefix, i) => s!"reject:prefix@{i}"
+    | .ok (.error (.failed _)) => "binderr:failed"
+    | .ok (.error (.dupDefault .v4)) => "binderr:dup4"
+    | .ok (.error (.dupDefault .v6)) => "binderr:dup6"
+    | .ok (.ok b) => showBound b ops
+  | _, _ => "bad-input"
+
 def handleLine (payload : String) : String :=
   match payload.splitOn "|" with
+  | ["b", reqs, ok, _, _, ops] => handleBuilder reqs ok ops
   | [_variant, cfgs, relay, custom, maps, ops] =>
     match parseCfgs cfgs, parseRelay relay, parseCustom custom, parseMaps maps with
     | some cfgs, some relay, some cspec, some maps =>
